@@ -7,6 +7,9 @@
   the atomic steps, every sequence of park / park_timeout / unpark / cancel calls and timer expiries on the same
   `Park`; the first park call - `rnd = 1` - is the fresh-`Blocker` case). The same `step` function is what the driver
   executes when it replays implementation traces (families `park`, `blocker`).
+  `init` is the code WITH the F6 fix (pending_fixes/F6.patch: the kernel tail re-checks the time after it has published
+  the coroutine); `initPinned` is the pinned `subscribe`, kept for the F6 witness. Which of the two the driver replays is
+  selected per trace by the source-derived header flag `f6fix=`.
   `threadpark_*` is about `tpRun {} l` of the `ThreadPark` token model in the same file.
 -/
 import MayVerif.Proof.Runtime.Park.Defs
@@ -65,22 +68,23 @@ theorem park_kernel_guard (sched : List (Actor × Env)) :
   ⟨h.wk, h.b2, h.dr3⟩
 
 /-- **Result soundness**, stated where the result is computed (`u7`: `get_co_para`).
-    `Timeout` comes from a timer of THIS park call, which then was a timed one - or, on a re-used Park only
+    `Timeout` comes from the time-out of THIS park call - its timer entry or the kernel tail's own re-check of the
+    time -, which then was a timed one and whose deadline has passed (`due`: never early) - or, on a re-used Park only
     (`1 < rnd`), from a stale timer of an earlier call (the spurious wake `coroutine::park` is allowed);
     on a fresh Park (`rnd = 1`, what `Blocker::current()` gives every primitive) it is this call's own timer.
     `Canceled` only if the cancel bit is set. `Ok` after a suspension, or on the fast path, only if some unpark
     set `state` since the Park was created. -/
 theorem park_result_sound (sched : List (Actor × Env)) (hp : (run init sched).ppc = .u7) :
     ((run init sched).para = .timedOut → (((run init sched).paraOwn = true ∨ 1 < (run init sched).rnd) ∧
-        ((run init sched).paraOwn = true → (run init sched).dur ≠ 0))) ∧
+        ((run init sched).paraOwn = true → ((run init sched).dur ≠ 0 ∧ (run init sched).due = true)))) ∧
     ((run init sched).para = .timedOut → (run init sched).rnd = 1 → ((run init sched).paraOwn = true ∧ (run init sched).dur ≠ 0)) ∧
     ((run init sched).para = .canceled → (run init sched).cbit = true) ∧
     ((run init sched).para = .none → 1 ≤ (run init sched).sets) := by
   have h := inv_reach sched
   generalize run init sched = s at *
-  have h1 := h.pown; have h2 := h.tm3; have h3 := h.cb1; have h4 := h.e6
+  have h1 := h.pown; have h2 := h.tm3; have h3 := h.cb1; have h4 := h.e6; have h5 := h.du3
   simp only [hp, postRes] at h4
-  refine ⟨fun ht => ⟨h1 ht, fun ho => h2 ⟨ht, ho⟩⟩, fun ht hr => ?_, h3, fun hn => ?_⟩
+  refine ⟨fun ht => ⟨h1 ht, fun ho => ⟨h2 ⟨ht, ho⟩, h5 ⟨ht, ho⟩⟩⟩, fun ht hr => ?_, h3, fun hn => ?_⟩
   · rcases h1 ht with ho | hr2
     · exact ⟨ho, h2 ⟨ht, ho⟩⟩
     · omega
@@ -101,8 +105,8 @@ theorem park_fast_ok_sound (sched : List (Actor × Env))
 -- which returns `Timeout` although it has no time-out.
 example : (let s := run init [
       (.P, .park 5), (.P, .go), (.P, .go), (.P, .go), (.P, .go), (.P, .go),          -- call 1 switches out
-      (.K, .go), (.K, .go), (.K, .go), (.K, .go), (.K, .go), (.K, .go), (.K, .go), (.K, .go),   -- subscribe: arms the timer, sleeps
-      (.V 0, .unpark), (.V 0, .go), (.V 0, .go), (.T, .popOwn), (.V 0, .go), (.S, .go),   -- unpark wins; the timer thread has popped the entry
+      (.K, .go), (.K, .go), (.K, .go), (.K, .go), (.K, .go), (.K, .go), (.K, .go), (.K, .go), (.K, .go),   -- subscribe: arms the timer, sleeps
+      (.V 0, .unpark), (.V 0, .go), (.V 0, .go), (.T, .tick), (.T, .popOwn), (.V 0, .go), (.S, .go),   -- unpark wins; the timer thread has popped the entry
       (.P, .go), (.P, .go), (.P, .go), (.P, .go), (.P, .go), (.P, .go),              -- call 1 returns Ok
       (.P, .park 0), (.P, .go), (.P, .go), (.P, .go), (.P, .go), (.P, .go),          -- call 2: untimed
       (.K, .go), (.K, .go), (.K, .go), (.K, .go), (.K, .go), (.K, .go), (.K, .go), (.K, .go),
@@ -110,45 +114,57 @@ example : (let s := run init [
       (.P, .go), (.P, .go), (.P, .go), (.P, .go), (.P, .go)]
     s.ppc = .u7 ∧ s.para = .timedOut ∧ s.paraOwn = false ∧ s.dur = 0 ∧ s.rnd = 2) := by decide
 
-/-- **Defect F6** (a timed park can sleep for ever): `Park::subscribe` arms the timer (`k0`) BEFORE it publishes the
-    coroutine (`k2`: `wait_co.store`). If the entry expires in between, the timer thread's `take` finds the slot empty
-    and the time-out is lost: the parker is suspended in a park_timeout(5 ms), its timer is gone, nobody has an
-    enabled step. Witness schedule: P switches out; `K5d K5` (cancel slot), `K0` arm; T pops the entry, `T0` take on the
-    empty slot; `K1 K2 K3 K5c K6`. (Replayed on the real code with a stall between add_timer and wait_co.store: DESIGN §7.) -/
+/-- **Defect F6 of the pinned code** (a timed park can sleep for ever): `Park::subscribe` arms the timer (`k0`) BEFORE
+    it publishes the coroutine (`k2`: `wait_co.store`). If the entry expires in between, the timer thread's `take` finds
+    the slot empty and the time-out is lost: the parker is suspended in a park_timeout(5 ms), its deadline has passed,
+    its timer is gone, nobody has an enabled step. Witness schedule on `initPinned`: P switches out; `K5d K5` (cancel
+    slot), `K0` arm; time passes, T pops the entry, `T0` take on the empty slot; `K1 K2 K3 K5c K6`.
+    (Real code: family `park_f6` on a tree without pending_fixes/F6.patch ends in hang reports.) -/
 theorem park_timeout_lost_F6 : ∃ sched : List (Actor × Env),
-    (run init sched).ppc = .u3wait ∧ (run init sched).dur = 5 ∧ (run init sched).wco = true ∧
-    (run init sched).own = .gone ∧ (run init sched).stale = 0 ∧ (run init sched).lostTmo = true ∧
-    (∀ a e, a ≠ Actor.P → (e = .go ∨ e = .popOwn ∨ e = .popStale ∨ e = .rmOwn ∨ e = .rmStale) → step (run init sched) a e = none ∨ a = .D) :=
+    (run initPinned sched).ppc = .u3wait ∧ (run initPinned sched).dur = 5 ∧ (run initPinned sched).wco = true ∧
+    (run initPinned sched).due = true ∧
+    (run initPinned sched).own = .gone ∧ (run initPinned sched).stale = 0 ∧ (run initPinned sched).lostTmo = true ∧
+    (∀ a e, a ≠ Actor.P → (e = .go ∨ e = .tick ∨ e = .popOwn ∨ e = .popStale ∨ e = .rmOwn ∨ e = .rmStale) →
+        step (run initPinned sched) a e = none ∨ a = .D) :=
   ⟨[(.P, .park 5), (.P, .go), (.P, .go), (.P, .go), (.P, .go), (.P, .go),
-    (.K, .go), (.K, .go), (.K, .go), (.T, .popOwn), (.T, .go),
+    (.K, .go), (.K, .go), (.K, .go), (.T, .tick), (.T, .popOwn), (.T, .go),
     (.K, .go), (.K, .go), (.K, .go), (.K, .go), (.K, .go)],
-   by decide, by decide, by decide, by decide, by decide, by decide,
+   by decide, by decide, by decide, by decide, by decide, by decide, by decide,
    by
      intro a e _ he
      cases a with
-     | V t => rcases he with rfl | rfl | rfl | rfl | rfl <;> exact Or.inl rfl
+     | V t => rcases he with rfl | rfl | rfl | rfl | rfl | rfl <;> exact Or.inl rfl
      | D => exact Or.inr rfl
-     | _ => rcases he with rfl | rfl | rfl | rfl | rfl <;> first | exact Or.inl rfl | contradiction⟩
+     | _ => rcases he with rfl | rfl | rfl | rfl | rfl | rfl <;> first | exact Or.inl rfl | contradiction⟩
 
-/-- **A timed park returns** - partial: excludes exactly the F6 window (`lostTmo`: the own timer fired while the kernel
-    tail was between arming it and publishing the coroutine). While the parker of a timed park is suspended in the
-    slot, its own timer is still armed or the timer thread has popped it and is about to `take`: the timer thread has
-    an enabled step that leads to the wake-up.
-    Full statement (without `lostTmo = false`) is FALSE on the pinned tree: `park_timeout_lost_F6`. -/
-theorem park_timeout_returns_partial (sched : List (Actor × Env))
-    (hp : (run init sched).ppc = .u3wait) (hd : (run init sched).dur ≠ 0) (hw : (run init sched).wco = true)
-    (hl : (run init sched).lostTmo = false) :
-    ((run init sched).own = .armed ∨ (run init sched).tpc = .t0 true) ∧
-    (∃ e s', step (run init sched) .T e = some s') := by
-  have h := (inv_reach sched).f6 hp hd hl (Or.inr hw)
-  refine ⟨h, ?_⟩
-  generalize run init sched = s at *
-  rcases h with ho | ht
-  · cases htp : s.tpc with
-    | tidle => exact ⟨.popOwn, _, by simp [step, stepT, htp, ho]; rfl⟩
-    | t0 o => have := stepT_isSome s (by simp [htp]); exact ⟨.go, _, (Option.eq_some_of_isSome this)⟩
-    | t1 => have := stepT_isSome s (by simp [htp]); exact ⟨.go, _, (Option.eq_some_of_isSome this)⟩
-  · have := stepT_isSome s (by simp [ht]); exact ⟨.go, _, (Option.eq_some_of_isSome this)⟩
+-- the same schedule on the FIXED code: the tail's re-check of the time after the publication finds the deadline
+-- passed, takes the coroutine itself and resumes it with `TimedOut`
+example : (let s := run init [(.P, .park 5), (.P, .go), (.P, .go), (.P, .go), (.P, .go), (.P, .go),
+      (.K, .go), (.K, .go), (.K, .go), (.T, .tick), (.T, .popOwn), (.T, .go),
+      (.K, .go), (.K, .go), (.K, .go), (.K, .go), (.K, .go)]
+    s.ppc = .u4chk ∧ s.para = .timedOut ∧ s.paraOwn = true ∧ s.kpc = .k6 ∧ s.own = .gone ∧ s.lostTmo = true) := by decide
+
+/-- **A timed park returns** (fixed code, full statement; replaces `park_timeout_returns_partial`): if the deadline of
+    a timed park has passed (`due`), no actor other than the parker (and a dropper) has an enabled step of an
+    operation in progress, and the timer thread cannot pop the call's entry (it is not pending any more), then the
+    parker is NOT suspended in that park. Together with "a pending entry whose time has come is popped" (C08) and
+    fairness: a `park_timeout(d)` always returns. -/
+theorem park_timeout_returns (sched : List (Actor × Env))
+    (hq : ∀ a, a ≠ Actor.P → a ≠ Actor.D → step (run init sched) a .go = none)
+    (hpop : step (run init sched) .T .popOwn = none)
+    (hd : (run init sched).dur ≠ 0) (hdue : (run init sched).due = true) :
+    (run init sched).ppc ≠ .u3wait :=
+  timeout_returns _ (inv_reach sched) (by rw [run_fix]; rfl) (quiescent_of_stuck _ hq) hpop hd hdue
+
+/-- the pinned code satisfies this only outside the F6 window (`lostTmo`: the own timer fired while the kernel tail was
+    between arming it and publishing the coroutine): while the parker of a timed park is suspended in the slot, its own
+    timer is still armed or the timer thread has popped it and is about to `take`.
+    Without `lostTmo = false` it is FALSE there: `park_timeout_lost_F6`. -/
+theorem park_timeout_returns_pinned_partial (sched : List (Actor × Env))
+    (hp : (run initPinned sched).ppc = .u3wait) (hd : (run initPinned sched).dur ≠ 0) (hw : (run initPinned sched).wco = true)
+    (hl : (run initPinned sched).lostTmo = false) :
+    (run initPinned sched).own = .armed ∨ (run initPinned sched).tpc = .t0 true :=
+  (inv_reachPinned sched).f6 hp hd hl (Or.inr hw)
 
 /-- **ThreadPark is a binary token** (incl. time-out). Every token ever set (`sets`: unparks that found the token
     clear) is consumed by exactly one `Ok` return, or swallowed by a `Timeout` return (the code clears the token after
@@ -201,7 +217,7 @@ example : (let s := run init [(.P, .park 0), (.P, .go), (.P, .go), (.P, .go), (.
     s.w = true ∧ susp s.ppc = true ∧ s.wco = true ∧ s.state = true ∧ s.vpcs s.lastV = .v1 ∧ s.kpc = .kidle) := by decide
 -- a timed park on a fresh Park ends by its own timer: Timeout
 example : (let s := run init [(.P, .park 3), (.P, .go), (.P, .go), (.P, .go), (.P, .go), (.P, .go),
-      (.K, .go), (.K, .go), (.K, .go), (.K, .go), (.K, .go), (.K, .go), (.K, .go), (.K, .go), (.T, .popOwn), (.T, .go), (.T, .go),
+      (.K, .go), (.K, .go), (.K, .go), (.K, .go), (.K, .go), (.K, .go), (.K, .go), (.K, .go), (.K, .go), (.T, .tick), (.T, .popOwn), (.T, .go), (.T, .go),
       (.P, .go), (.P, .go), (.P, .go), (.P, .go), (.P, .go)]
     s.ppc = .u7 ∧ s.para = .timedOut ∧ s.paraOwn = true ∧ s.rnd = 1) := by decide
 -- the wait_kernel guard at work: after a nested self-wake the parker finds `wait_kernel` set in its next call and
